@@ -2152,6 +2152,15 @@ class PseudoNetCDFFile(PseudoNetCDFSelfReg, object):
                     point_arrays.append(np.expand_dims(
                         varo[sliceoi], axis=concatax))
                 newvals = np.ma.concatenate(point_arrays, axis=concatax)
+            elif needsfancy:
+                # one index list for a dimension that the variable has on
+                # several axes: numpy would pair the copies of the list
+                # point by point; the list selects on each of the axes
+                newvals = varo[...]
+                for ai, si in enumerate(sliceo):
+                    if np.isscalar(si):
+                        si = slice(si, (si + 1) or None)
+                    newvals = newvals[(slice(None),) * ai + (si,)]
             else:
                 newvals = varo[sliceo]
             try:
